@@ -123,7 +123,8 @@ impl Gen {
                 json!({"name": nm, "c": self.class(present), "form": self.rng.gen_range(0..2)})
             }
             58..=61 => json!({"name": "retain", "keep": self.keep(present), "w": self.w()}),
-            62 => json!({"name": "clear"}),
+            62 if cap <= 16 || self.rng.gen_bool(0.1) => json!({"name": "clear"}),
+            62 => json!({"name": "eq_clone"}),
             63 => json!({"name": "drop"}),
             64..=67 => {
                 let n = self.rng.gen_range(0..=len);
@@ -163,7 +164,23 @@ impl Gen {
 
     pub fn set_op(&mut self, present: &[Cls], _cap: usize) -> Value {
         let len = present.len();
-        let x = self.rng.gen_range(0..100);
+        if _cap > 16 && len < _cap - 4 && self.rng.gen_bool(0.85) {
+            let mut c = self.rng.gen_range(0..self.classes);
+            for _ in 0..8 {
+                if !present.contains(&c) {
+                    break;
+                }
+                c = self.rng.gen_range(0..self.classes);
+            }
+            return json!({"name": "s_insert", "k": {"kt": ARG + 1, "c": c, "r": 0}});
+        }
+        if _cap > 16 && self.rng.gen_bool(0.15) {
+            return json!({"name": "s_eq_clone"});
+        }
+        let mut x = self.rng.gen_range(0..100);
+        if _cap > 16 && ((65..=72).contains(&x) || (83..=88).contains(&x)) && self.rng.gen_bool(0.9) {
+            x = 30; // large containers: emptying calls only rarely
+        }
         match x {
             0..=24 => {
                 let nm = ["s_insert", "s_insert", "s_replace"][self.rng.gen_range(0..3)];
@@ -178,7 +195,8 @@ impl Gen {
                 json!({"name": nm, "c": self.class(present), "form": self.rng.gen_range(0..2)})
             }
             60..=64 => json!({"name": "s_retain", "keep": self.keep(present)}),
-            65 => json!({"name": "s_clear"}),
+            65 if _cap <= 16 || self.rng.gen_bool(0.1) => json!({"name": "s_clear"}),
+            65 => json!({"name": "s_eq_clone"}),
             66 => json!({"name": "s_drop"}),
             67..=72 => {
                 let n = self.rng.gen_range(0..=len);
@@ -205,6 +223,17 @@ impl Gen {
             }
         }
     }
+}
+
+/// ndjson read by TLC has no null: a cursor that cannot show what it still holds says so
+fn no_nulls(mut ret: Value) -> Value {
+    if let Some(o) = ret.as_object_mut() {
+        if o.get("rem").map(|x| x.is_null()).unwrap_or(false) {
+            o.insert("rem".into(), json!([]));
+            o.insert("norem".into(), json!(true));
+        }
+    }
+    ret
 }
 
 fn tags_of(ctx: &Ctx, drops: &[(Kind, u32)]) -> (Vec<i64>, Vec<i64>) {
@@ -267,7 +296,7 @@ fn run_map<const N: usize>(g: &mut Gen, steps: usize, out: &mut impl Write) -> (
         }
         let s: Vec<Value> = pre.iter().map(|(k, v)| json!([k.class, k.ver, v.content])).collect();
         ledger::mark();
-        let ret = exec_map(&mut cage, &op, &mut ctx);
+        let ret = no_nulls(exec_map(&mut cage, &op, &mut ctx));
         if ctx.panicked {
             panics += 1;
         }
@@ -345,7 +374,7 @@ fn run_set<const N: usize>(g: &mut Gen, steps: usize, out: &mut impl Write) -> (
         }
         let s: Vec<Value> = pre.iter().map(|k| json!([k.class, k.ver, 0])).collect();
         ledger::mark();
-        let ret = exec_set(&mut cage, &op, &mut ctx);
+        let ret = no_nulls(exec_set(&mut cage, &op, &mut ctx));
         if ctx.panicked {
             panics += 1;
         }
